@@ -54,9 +54,9 @@ macro_rules! three_paths {
         let q: Point = $q;
         let a = native_vs_areas!(st, q);
         let bb = Rectangle::new(Point::new(-100000, -100000), Size::new(200000, 200000));
-        let mut b = Probe::<Gray8>::new(q, bb);
+        let mut b = Probe::<Gray8>::new(q, sym_bbox(q));
         st.draw(&mut b).unwrap();
-        let mut c = Probe::<Gray8>::new(q, bb);
+        let mut c = Probe::<Gray8>::new(q, sym_bbox(q));
         c.draw_iter(st.pixels()).unwrap();
         note!("default", b.last); note!("pixels", c.last);
         check!(a.last == b.last, "C01.native_eq_default");
@@ -138,12 +138,12 @@ macro_rules! two_paths {
         let q: Point = $q;
         let a = native_vs_areas!(st, q);
         let bb = Rectangle::new(Point::new(-100000, -100000), Size::new(200000, 200000));
-        let mut c = Probe::<Gray8>::new(q, bb);
+        let mut c = Probe::<Gray8>::new(q, sym_bbox(q));
         c.draw_iter(st.pixels()).unwrap();
         note!("pixels", c.last);
         check!(c.last == a.last, "C01.pixels_eq_draw");
         if $full {
-            let mut b = Probe::<Gray8>::new(q, bb);
+            let mut b = Probe::<Gray8>::new(q, sym_bbox(q));
             st.draw(&mut b).unwrap();
             note!("default", b.last);
             check!(a.last == b.last, "C01.native_eq_default");
@@ -179,8 +179,17 @@ c06_g3!(c01_c02_c06_q_g_ellipses_both, c01_c02_c06_q_g_ellipses_fill, c01_c02_c0
 c06_g3!(c01_c02_c06_q_g_rrects_both, c01_c02_c06_q_g_rrects_fill, c01_c02_c06_q_g_rrects_stroke, false, 40,
     [(RoundedRectangle::with_equal_corners(Rectangle::new(A0, Size::new(6, 5)), Size::new(2, 2)), 1, Inside),
      (RoundedRectangle::with_equal_corners(Rectangle::new(A1, Size::new(4, 6)), Size::new(1, 2)), 2, Inside)]);
+// zero-sized base shapes with a stroke that has an outside part: the stroke area is not empty
+c06_g3!(c06_q_g_degenerate_both, c06_q_g_degenerate_fill, c06_q_g_degenerate_stroke, false, 40,
+    [(RoundedRectangle::with_equal_corners(Rectangle::new(A0, Size::new(0, 0)), Size::new(1, 1)), 2, Outside),
+     (RoundedRectangle::with_equal_corners(Rectangle::new(A1, Size::new(0, 5)), Size::new(2, 2)), 4, Center),
+     (RoundedRectangle::with_equal_corners(Rectangle::new(A0, Size::new(4, 0)), Size::new(0, 0)), 1, Outside)]);
+c06_g3!(c06_q_g_degenerate2_both, c06_q_g_degenerate2_fill, c06_q_g_degenerate2_stroke, false, 40,
+    [(Circle::new(A1, 0), 2, Outside), (Circle::new(A0, 0), 3, Center)]);
+c06_g3!(c06_q_g_degenerate3_both, c06_q_g_degenerate3_fill, c06_q_g_degenerate3_stroke, false, 40,
+    [(Ellipse::new(A0, Size::new(0, 3)), 2, Center), (Ellipse::new(A1, Size::new(4, 0)), 1, Outside)]);
 // flat corner radii: the first row of a corner is already shorter than the rectangle
-c06_g3!(c01_c02_c06_q_g_rrects_flat_both, c01_c02_c06_q_g_rrects_flat_fill, c01_c02_c06_q_g_rrects_flat_stroke, false, 52,
+c06_g3!(c06_q_g_rrects_flat_both, c06_q_g_rrects_flat_fill, c06_q_g_rrects_flat_stroke, false, 52,
     [(RoundedRectangle::with_equal_corners(Rectangle::new(A0, Size::new(12, 4)), Size::new(5, 1)), 1, Inside),
      (RoundedRectangle::new(Rectangle::new(A1, Size::new(4, 11)), CornerRadii { top_left: Size::new(1, 4), top_right: Size::new(1, 5), bottom_right: Size::new(1, 4), bottom_left: Size::new(1, 5) }), 1, Inside)]);
 c06_g3!(c01_c02_c06_q_g_rects_both, c01_c02_c06_q_g_rects_fill, c01_c02_c06_q_g_rects_stroke, true, 40,
@@ -294,9 +303,9 @@ macro_rules! c01_g {
                 let big = Rectangle::new(Point::new(-100000, -100000), Size::new(200000, 200000));
                 let mut a = NProbe::<Gray8>::new(q, big);
                 st.draw(&mut a).unwrap();
-                let mut b = Probe::<Gray8>::new(q, big);
+                let mut b = Probe::<Gray8>::new(q, sym_bbox(q));
                 st.draw(&mut b).unwrap();
-                let mut c = Probe::<Gray8>::new(q, big);
+                let mut c = Probe::<Gray8>::new(q, sym_bbox(q));
                 c.draw_iter(st.pixels()).unwrap();
                 note!("native", a.last); note!("default", b.last); note!("pixels", c.last);
                 check!(a.last == b.last, "C01.native_eq_default");
@@ -399,7 +408,7 @@ macro_rules! c02_g_native {
                     if a.writes > 0 { check!(in_rect(&st.bounding_box(), q), "C02.inside_bbox"); }
                 }
                 if $crate::macros::focused("C01.native_eq_default") {
-                    let mut b = Probe::<Gray8>::new(q, big);
+                    let mut b = Probe::<Gray8>::new(q, sym_bbox(q));
                     st.draw(&mut b).unwrap();
                     note!("native", a.last); note!("default", b.last);
                     check!(a.last == b.last, "C01.native_eq_default");
